@@ -296,7 +296,8 @@ type pageVerdict struct {
 //     its bottom padding/border (canBreak is false on an empty page), although it has break points
 //     between its children.
 //
-// Both are only recognised when nothing else is wrong: everything but that bottom decoration fits.
+// Both are only recognised when nothing else is wrong: everything but that bottom decoration fits
+// (or is within the undecided zone of fits()).
 func (f *flow) knownOverflow(s, b int, used, H float64) (sig, why string) {
 	if b == s {
 		return "", ""
@@ -316,17 +317,17 @@ func (f *flow) knownOverflow(s, b int, used, H float64) (sig, why string) {
 		leafPost = ub.ownPost
 	}
 	if sameBox {
-		if fit, sure := f.fits(used-ub.boxPost, H); fit && sure {
+		if fit, sure := f.fits(used-ub.boxPost, H); fit || !sure {
 			return "overflow-bottom-decoration-of-first-box", sprintf("known pattern: box %s is the first box of the page, its content fits and its bottom padding/border (%g px) does not", blk.parent.ID, ub.boxPost)
 		}
 		if leafPost > 0 {
-			if fit, sure := f.fits(used-ub.boxPost-leafPost, H); fit && sure {
+			if fit, sure := f.fits(used-ub.boxPost-leafPost, H); fit || !sure {
 				return "overflow-bottom-decoration-of-first-box", sprintf("known pattern: box %s is the first box of the page, its content fits without the bottom padding/border of its last fixed-height child %s (%g px) and its own (%g px)", blk.parent.ID, blk.it.ID, leafPost, ub.boxPost)
 			}
 		}
 	}
 	if leafPost > 0 {
-		if fit, sure := f.fits(used-leafPost, H); fit && sure {
+		if fit, sure := f.fits(used-leafPost, H); fit || !sure {
 			return "overflow-bottom-decoration-of-fixed-height-block", sprintf("known pattern: the content of the fixed-height block %s fits, its own bottom padding/border (%g px) does not", blk.it.ID, leafPost)
 		}
 	}
@@ -352,6 +353,42 @@ func (f *flow) fits(sum, H float64) (fit, sure bool) {
 // checkPageEnd decides whether ending a page of content height H after unit b is allowed, the
 // page having started with unit s.
 func (f *flow) checkPageEnd(s, b int, H float64) pageVerdict {
+	v := f.checkPageEndH(s, b, H)
+	if v.sig == "early-break" || v.sig == "break-rule-ignored" {
+		if x, d := f.reducedSpaceBox(s, H); x != nil {
+			if w := f.checkPageEndH(s, b, H-d); w.sig == "" {
+				v.sig = "break-decided-in-space-reduced-by-box-bottom-decoration"
+				v.msg += sprintf("; known pattern: the content of box %s fits on the page and its bottom padding/border (%g px) does not, the box was laid out again in a space reduced by that amount for all of its children (not only the last one), and the page end is the one the rules give for a content height of %g", x.ID, d, H-d)
+			}
+		}
+	}
+	return v
+}
+
+// reducedSpaceBox finds the box whose whole content fits on the page starting at unit s while its
+// bottom padding/border does not (see notes/C12.md, open finding
+// F-C12-box-relayout-reduces-space-for-all-children).  On the current tree a box that is first on
+// its page is not laid out again (finding F-C12-first-box-bottom-decoration-overflows, reported as
+// an overflow); with the proposed repair of that finding it is, and inherits this pattern.
+func (f *flow) reducedSpaceBox(s int, H float64) (*Item, float64) {
+	sum := 0.0
+	for k := s; k < len(f.units); k++ {
+		u := f.units[k]
+		sum += u.tot()
+		if ok, sure := f.fits(sum-u.boxPost, H); !ok && sure {
+			return nil, 0
+		}
+		if u.boxPost > 0 {
+			blk := &f.blocks[u.blk]
+			if fit, sure := f.fits(sum, H); !fit && sure {
+				return blk.parent, u.boxPost
+			}
+		}
+	}
+	return nil, 0
+}
+
+func (f *flow) checkPageEndH(s, b int, H float64) pageVerdict {
 	n := len(f.units)
 	var v pageVerdict
 	// e: last unit that surely fits, eMax: last unit that may fit (the first unit of a page is
